@@ -6,6 +6,14 @@ is the list of shown objects in display order; the real ``InClass.sort_sequence`
 is a mutator-logging list subclass (or a plain list / tuple) fingerprinted before and after.
 Oracle (vlib/c13_util.py): pairwise ``<`` / ``==`` on the keys, never a re-sort; reverse and
 batching are decided against the engine's own plain rendering of the same input.
+
+Part D hands dtml-in everything else a caller may hand it (iterators, generators, map objects,
+dict views, sets, classes with only ``__iter__`` / only ``__getitem__``, deque, UserList ...):
+the same output-level demands (every element exactly once, order, stability, reverse, window),
+"sequence untouched" for whatever can be walked twice.  The wrappers on the two internal
+functions never walk an argument that is not a list or tuple (that would change what the
+engine sees) and are diagnosis only.  Part E enters the same compiled template again from
+inside its own sorted loop and compares both activations with their stand-alone renderings.
 """
 import itertools
 
@@ -28,13 +36,19 @@ RULE = ('A: every list of length 0..5 (thorough 0..6) over a 3-value key domain 
         'ones {dict values / keys / items views, a dict, set, frozenset, a class with only __iter__, '
         'with __iter__ and __len__, with only __getitem__} and subscriptable non-lists {deque, '
         'UserList, a class with __getitem__ and __len__}: for every such kind x key type x every '
-        'single-key form, element sort and no sort, every list of length 0..3 (thorough 0..4); every '
+        'single-key form, element sort and no sort, every list of length 0..2 (thorough 0..4); every '
         'list of 0..2 (thorough 0..3) two-key rows for the type and form pairs of B; and seeded lists '
         'of 0..8; in D the element kind, key delivery, route, how the tag gets the sequence (name, '
         'expr="seq", "mk()" calling a factory) and the spelling of the tag (<dtml-in>, <!--#in-->, '
-        '%(in)[ of String) are drawn with the seeded generator.  Every case is rendered plain, '
+        '%(in)[ of String) are drawn with the seeded generator, the element kind among the kinds the '
+        'container can hold.  Every case is rendered plain, '
         'reversed and batched: a re-iterable object is the same object in the three renderings, a '
-        'one-shot iterable is made anew over the same elements.  Non-trivial: at least two elements '
+        'one-shot iterable is made anew over the same elements.  E: seeded cases (lists of 1..8 '
+        'object elements, single and double keys, element sorts, list / tuple containers) in which '
+        'showing one chosen element of the loop renders the SAME compiled template over a second '
+        'sequence of 0..8 elements (a template entered again from inside its own sorted loop, as a '
+        'recursive tree or site map does), plain / reversed / batched: both activations must show what '
+        'they show when rendered alone.  Non-trivial: at least two elements '
         '(every 2-element list decides an order or a tie); distinct = distinct (spec, route, kind, '
         'delivery, container, key types, rows, reverse mode, window, sequence origin, tag spelling).')
 ASSUMPTIONS = [
@@ -67,9 +81,10 @@ MAXLEN_A = {'quick': 5, 'thorough': 6}
 MAXLEN_B = {'quick': 3, 'thorough': 4}
 NSEEDED = {'quick': 24000, 'thorough': 300000}
 # part D (containers other than list / tuple)
-MAXLEN_D1 = {'quick': 3, 'thorough': 4}
+MAXLEN_D1 = {'quick': 2, 'thorough': 4}
 MAXLEN_D2 = {'quick': 2, 'thorough': 3}
-NSEEDED_D = {'quick': 8000, 'thorough': 100000}
+NSEEDED_D = {'quick': 12000, 'thorough': 100000}
+NSEEDED_E = {'quick': 4000, 'thorough': 40000}
 SORT_CLASSES = ['key1/sort', 'key1/sort_unq', 'key1/sort_expr', 'key2/sort', 'key2/sort_expr',
                 'isort/sort', 'isort/sort_expr', 'nosort']
 LAWS = ['every element shown exactly once', 'reverse', 'reverse_expr', 'batch', 'batch of sorted']
@@ -253,16 +268,10 @@ def fields_of(case):
     return [(f[1], f[2]) for f in case['fields']]
 
 
-def render(ctx, mon, templates, case, data, rows, log, revmode, batch, fp0):
-    """One rendering; returns the list of shown Row objects or None (violation recorded).
-    data: U.Source -- the same object every time, a new iterator for the one-shot kinds."""
-    src = source(case, revmode, batch)
-    t = templates.get(src)
-    seq = data.get()
+def namespace(case, src, seq, revmode, batch):
     ns = {'seq': seq}
     if case.get('seqfrom') == 'call':
         ns = {'mk': lambda: seq}
-    mon.expected = data.items
     if 'sort_expr="sx"' in src:
         ns['sx'] = '' if case['isort'] else case['spec']
     if revmode == 'reverse_expr1':
@@ -271,30 +280,11 @@ def render(ctx, mon, templates, case, data, rows, log, revmode, batch, fp0):
         ns['rv'] = 0
     if batch:
         ns['st'], ns['sz'] = batch
-    log.clear()
-    mon.clear()
-    vcase = dict(case, revmode=revmode, batch=batch)
-    label = '%s|%s' % (revmode or 'plain', 'batch' if batch else 'all')
-    try:
-        out = t(**ns)
-    except Exception as e:
-        mech = classify(case, 'raise', e)
-        ctx.violation('rendering %s raised %s: %s' % (src, type(e).__name__, str(e)[:160]),
-                      vcase, mech=mech, key='raise_%s_%s' % (type(e).__name__, case['tag']),
-                      detail={'source': src})
-        ctx.count('outcome:raised')
-        return None
-    ctx.count('renders:' + label)
-    problems = []
-    # -- the caller's sequence and its elements
-    if U.fingerprint(data, rows) != fp0:
-        problems.append(('mutation', "the caller's sequence or one of its elements changed"))
-    if isinstance(seq, U.WatchedList) and seq.mutations:
-        problems.append(('mutation', "mutators called on the caller's list: %r" % seq.mutations[:4]))
-    ctx.count('monitor:input fingerprint comparisons')
-    # -- recorded calls of the real functions
-    problems.extend(mon.problems())
-    # -- identities of the shown elements
+    return ns
+
+
+def decode(case, rows, log, out, problems, whole):
+    """the shown Row objects of one output, or None; whole: every element must be there."""
     toks = out.split(';')
     if toks[-1] != '':
         problems.append(('output', 'unparseable output %r' % out[:80]))
@@ -328,8 +318,44 @@ def render(ctx, mon, templates, case, data, rows, log, revmode, batch, fp0):
     if shown is not None:
         if len(set(r.idx for r in shown)) != len(shown):
             problems.append(('permutation', 'an element is shown twice'))
-        if not batch and len(shown) != len(rows):
+        if whole and len(shown) != len(rows):
             problems.append(('permutation', '%d elements shown, %d in the input' % (len(shown), len(rows))))
+    return shown
+
+
+def render(ctx, mon, templates, case, data, rows, log, revmode, batch, fp0, extra=None):
+    """One rendering; returns the list of shown Row objects or None (violation recorded).
+    data: U.Source -- the same object every time, a new iterator for the one-shot kinds."""
+    src = source(case, revmode, batch)
+    t = templates.get(src)
+    seq = data.get()
+    ns = namespace(case, src, seq, revmode, batch)
+    mon.expected = data.items
+    log.clear()
+    mon.clear()
+    vcase = dict(case, revmode=revmode, batch=batch, **(extra or {}))
+    label = '%s|%s' % (revmode or 'plain', 'batch' if batch else 'all')
+    try:
+        out = t(**ns)
+    except Exception as e:
+        mech = classify(case, 'raise', e)
+        ctx.violation('rendering %s raised %s: %s' % (src, type(e).__name__, str(e)[:160]),
+                      vcase, mech=mech, key='raise_%s_%s' % (type(e).__name__, case['tag']),
+                      detail={'source': src})
+        ctx.count('outcome:raised')
+        return None
+    ctx.count('renders:' + label)
+    problems = []
+    # -- the caller's sequence and its elements
+    if U.fingerprint(data, rows) != fp0:
+        problems.append(('mutation', "the caller's sequence or one of its elements changed"))
+    if isinstance(seq, U.WatchedList) and seq.mutations:
+        problems.append(('mutation', "mutators called on the caller's list: %r" % seq.mutations[:4]))
+    ctx.count('monitor:input fingerprint comparisons')
+    # -- recorded calls of the real functions
+    problems.extend(mon.problems())
+    # -- identities of the shown elements
+    shown = decode(case, rows, log, out, problems, not batch)
     if problems:
         report(ctx, vcase, problems, src, out)
         if any(p[0] in ('permutation', 'output') for p in problems):
@@ -642,6 +668,20 @@ def vary(case, rng, cont):
     return case
 
 
+def fitting(cont, kinds, row=None):
+    """the element kinds of `kinds` that the container can hold (set members and dict keys must
+    be hashable and pairwise unequal, dict.items() yields 2-tuples); all of them if none fits
+    (vlib/c13_util.py then builds a dict values view instead)."""
+    distinct = row is not None and len(set(row)) == len(row)
+    if cont in U.NEED_DISTINCT:
+        ok = [k for k in kinds if k in ('obj', 'pair') or (distinct and k in ('plain', 'cmpobj'))]
+    elif cont == 'dict_items':
+        ok = [k for k in kinds if k == 'pairmap' or (k == 'pair' and (row is None or distinct))]
+    else:
+        ok = kinds
+    return ok or kinds
+
+
 def run_part_d(ctx, mon, templates):
     rng = ctx.rng
     counter = 0
@@ -651,28 +691,125 @@ def run_part_d(ctx, mon, templates):
             continue
         c = rng.randrange(1 << 20)
         if kind_ == 'key':
-            case = keyed_case('D:key1', [kt], [form], rng.choice(KEYED_KINDS + ['pairmap']),
+            case = keyed_case('D:key1', [kt], [form], rng.choice(fitting(cont, KEYED_KINDS + ['pairmap'])),
                               rng.choice(['plain', 'callable']), [[e] for e in row], c)
         elif kind_ == 'isort':
-            case = isort_case('D:isort', kt, form, rng.choice(ISORT_KINDS), list(row), c)
+            case = isort_case('D:isort', kt, form, rng.choice(fitting(cont, ISORT_KINDS, row)), list(row), c)
         else:
-            case = nosort_case('D:nosort', kt, rng.choice(['obj', 'pair']), list(row), c)
+            case = nosort_case('D:nosort', kt, rng.choice(fitting(cont, ['obj', 'pair'])), list(row), c)
         ctx.count('part D cases (containers, single key / element sort / no sort)')
         run_case(ctx, mon, templates, vary(case, rng, cont), rng.randrange(1 << 20))
     for t1, t2, f1, f2, rows in part_d2(ctx.tier):
         counter += 1
         if counter % ctx.nshards != ctx.shard:
             continue
-        case = keyed_case('D:key2', [t1, t2], [f1, f2], rng.choice(KEYED_KINDS + ['pairmap']),
+        cont = rng.choice(U.NEW_CONTAINERS)
+        case = keyed_case('D:key2', [t1, t2], [f1, f2], rng.choice(fitting(cont, KEYED_KINDS + ['pairmap'])),
                           rng.choice(['plain', 'callable']), [list(r) for r in rows],
                           rng.randrange(1 << 20), small=True)
         ctx.count('part D cases (containers, two keys)')
-        run_case(ctx, mon, templates, vary(case, rng, rng.choice(U.NEW_CONTAINERS)), rng.randrange(1 << 20))
+        run_case(ctx, mon, templates, vary(case, rng, cont), rng.randrange(1 << 20))
     for _ in range(NSEEDED_D[ctx.tier] // ctx.nshards):
         case = seeded_case(rng, rng.randrange(1 << 20))
         case['tag'] = 'D' + case['tag'][1:]
         ctx.count('part D cases (containers, seeded)')
         run_case(ctx, mon, templates, vary(case, rng, rng.choice(U.NEW_CONTAINERS)), rng.randrange(1 << 20))
+
+
+def reentrant_choices(case, inner_rows, counter):
+    n, m = len(case['rows']), max(len(inner_rows), 1)
+    revmode = ((None,) + tuple(REVMODES))[counter % 4]
+    batched = (counter // 4) % 2 == 1
+    batch_o = [1 + (counter // 8) % n, 1 + (counter // 64) % n] if batched else None
+    batch_i = [1 + (counter // 512) % m, 1 + (counter // 4096) % m] if batched else None
+    return revmode, batch_o, batch_i, counter % 7
+
+
+def run_reentrant(ctx, mon, templates, case, inner_rows, revmode, batch_o, batch_i, at):
+    """Part E: the same compiled dtml-in is entered again while it is still looping: showing
+    one chosen element of the outer sequence renders the same template object over another
+    sequence.  Each of the two activations must show what it shows when rendered alone."""
+    icase = dict(case, rows=inner_rows)
+    log_o, log_i = U.Log(), U.Log()
+    data_o, rows_o = U.build(case, log_o)
+    data_i, rows_i = U.build(icase, log_i)
+    n = len(rows_o)
+    batched = bool(batch_o)
+    ctx.case(('E', case['route'], case['kind'], case.get('delivery'), case['container'], tuple(case['ktypes']),
+              case['spec'], case.get('form'), tuple(map(tuple, case['rows'])), tuple(map(tuple, inner_rows)),
+              revmode, tuple(batch_o or ()), tuple(batch_i or ()), at), nontrivial=n >= 2)
+    fp_o, fp_i = U.fingerprint(data_o, rows_o), U.fingerprint(data_i, rows_i)
+    alone_o = render(ctx, mon, templates, case, data_o, rows_o, log_o, revmode, batch_o, fp_o)
+    alone_i = render(ctx, mon, templates, icase, data_i, rows_i, log_i, revmode, batch_i, fp_i)
+    if alone_o is None or alone_i is None or not alone_o:
+        return
+    src = source(case, revmode, batch_o)
+    t = templates.get(src)
+    at = at % len(alone_o)
+    state = {'calls': 0, 'out': None, 'exc': None, 'done': False}
+
+    def hook(elem):
+        state['calls'] += 1
+        if state['calls'] - 1 != at or state['done']:
+            return
+        state['done'] = True
+        log_i.clear()
+        try:
+            state['out'] = t(**namespace(icase, src, data_i.get(), revmode, batch_i))
+        except Exception as e:
+            state['exc'] = e
+    log_o.hook = hook
+    try:
+        nested_o = render(ctx, mon, templates, case, data_o, rows_o, log_o, revmode, batch_o, fp_o,
+                          extra={'inner_rows': inner_rows, 'inner_batch': batch_i, 'at': at})
+    finally:
+        log_o.hook = None
+    vcase = dict(case, revmode=revmode, batch=batch_o, inner_rows=inner_rows, inner_batch=batch_i, at=at)
+    what = 'the same compiled template rendered from inside its own loop (at shown element #%d)' % at
+    if not state['done']:
+        if nested_o is not None:
+            ctx.inconclusive('part E: the inner rendering was never started')
+        return
+    problems = []
+    if state['exc'] is not None:
+        e = state['exc']
+        problems.append(('reentry', 'inner rendering raised %s: %s' % (type(e).__name__, str(e)[:120])))
+    else:
+        got_i = decode(icase, rows_i, log_i, state['out'], problems, not batch_i)
+        ctx.count('oracle:re-entered activation compared with the same rendering alone (inner)')
+        if got_i is not None and shown_ids(icase, got_i) != shown_ids(icase, alone_i):
+            problems.append(('reentry', 'inner activation shows inputs %r, alone it shows %r'
+                             % ([r.idx for r in got_i], [r.idx for r in alone_i])))
+        if U.fingerprint(data_i, rows_i) != fp_i:
+            problems.append(('mutation', "the inner caller's sequence or one of its elements changed"))
+    if nested_o is not None:
+        ctx.count('oracle:re-entered activation compared with the same rendering alone (outer)')
+        if n >= 2:
+            ctx.table('re-entry', '%s | %s%s' % (
+                'isort' if case['isort'] else 'key%d' % len(case['fields']), revmode or 'plain',
+                ' batch' if batched else ''))
+        if shown_ids(case, nested_o) != shown_ids(case, alone_o):
+            problems.append(('reentry', 'outer activation shows inputs %r, alone it shows %r'
+                             % ([r.idx for r in nested_o], [r.idx for r in alone_o])))
+    if problems:
+        for sy in sorted(set(p[0] for p in problems)):
+            ctx.count('symptom:' + sy)
+        ctx.violation(what + ': ' + '; '.join(p[1] for p in problems[:4]), vcase,
+                      key='reentry_%s' % case['tag'], detail={'source': src})
+
+
+def run_part_e(ctx, mon, templates):
+    rng = ctx.rng
+    for _ in range(NSEEDED_E[ctx.tier] // ctx.nshards):
+        while True:
+            case = seeded_case(rng, rng.randrange(1 << 20))
+            if case['kind'] != 'plain' and case['rows']:
+                break
+        case['tag'] = 'E' + case['tag'][1:]
+        inner_rows = [list(rng.choice(case['rows'])) for _ in range(rng.randint(0, 8))]
+        ctx.count('part E cases (re-entered template, seeded)')
+        run_reentrant(ctx, mon, templates, case, inner_rows,
+                      *reentrant_choices(case, inner_rows, rng.randrange(1 << 20)))
 
 
 # ---------------------------------------------------------------- shard
@@ -743,6 +880,7 @@ def run(ctx, spec):
         ctx.count('part C cases (seeded)')
         run_case(ctx, mon, templates, case, rng.randrange(1 << 20))
     run_part_d(ctx, mon, templates)
+    run_part_e(ctx, mon, templates)
     ctx.count('templates compiled', len(templates.cache))
     reach.stop()
     reach.report(ctx)
@@ -757,7 +895,9 @@ def finish(agg):
     # deciding: comparisons made on what was shown and on the caller's objects
     for k in ('monitor:input fingerprint comparisons', 'oracle:order evaluations',
               'oracle:reverse law evaluations', 'oracle:batch law evaluations',
-              'oracle:cases with None/missing keys', 'oracle:cases with tied keys'):
+              'oracle:cases with None/missing keys', 'oracle:cases with tied keys',
+              'oracle:re-entered activation compared with the same rendering alone (outer)',
+              'oracle:re-entered activation compared with the same rendering alone (inner)'):
         if not c.get(k):
             inc.append('deciding monitor never evaluated: ' + k)
     # diagnosis: wrappers and anchors on engine internals (a renamed private function must not
@@ -828,6 +968,7 @@ def finish(agg):
                          'containers_max_length_single_key': MAXLEN_D1[tier],
                          'containers_max_length_two_keys': MAXLEN_D2[tier],
                          'containers_seeded_lists': NSEEDED_D[tier],
+                         'reentered_template_seeded_cases': NSEEDED_E[tier],
                          'diagnosis_not_available': diag}}
 
 
@@ -838,6 +979,10 @@ def replay(ctx, rep):
     case = dict(rep['case'])
     revmode = case.pop('revmode', None)
     batch = case.pop('batch', None)
+    if 'inner_rows' in case:
+        inner_rows, batch_i, at = case.pop('inner_rows'), case.pop('inner_batch', None), case.pop('at', 0)
+        run_reentrant(ctx, mon, templates, case, inner_rows, revmode, batch, batch_i, at)
+        return
     log = U.Log()
     data, rows = U.build(case, log)
     fp0 = U.fingerprint(data, rows)
